@@ -198,7 +198,24 @@ func isolationCase(c *Ctx) {
 			// import-under-new-keys of this structure's export: must not touch the exporter
 			if doc, err := s.kind.eq.export(s.h); err == nil {
 				snapA := c.dbSnapshot()
-				safely(func() { s.kind.eq.imp(c, doc) })
+				// target: a fresh instance, or a second handle that is currently attached to ANOTHER
+				// live structure of the same kind (it moves to new keys; that structure must not notice)
+				target := -1
+				if s.kind.eq.impInto != nil && c.rng.Intn(2) == 0 {
+					for j, t := range structs {
+						if j != i && t.h != nil && t.kind.eq.name == s.kind.eq.name {
+							target = j
+						}
+					}
+				}
+				if target >= 0 {
+					if h2, err := structs[target].kind.attach(structs[target].mk); err == nil && h2 != nil {
+						safely(func() { s.kind.eq.impInto(h2, doc) })
+						c.op("import-into-attached-handle")
+					}
+				} else {
+					safely(func() { s.kind.eq.imp(c, doc) })
+				}
 				snapB := c.dbSnapshot()
 				c.op("import-new-keys")
 				others := allKeys(-1)
